@@ -326,6 +326,16 @@ harmonic {
 PLACE = re.compile(r"@(\w+)=([^@|]*)(?:\|([^@]*))?@")
 
 
+# pairs of settings that once killed the process (found by the thorough tier's random pairs); executed in every tier
+REGRESSIONS = [
+    [[{"t": "abfcv", "k": "upperBoundary", "v": "0"}, {"t": "abfcv", "k": "width", "v": "1e-9"}]],
+    [[{"t": "metacv", "k": "upperBoundary", "v": "1e-9"}, {"t": "metacv", "k": "width", "v": "1e-9"}]],
+    [[{"t": "histogram", "k": "upperBoundary", "v": "2000000000"}, {"t": "histogram", "k": "width", "v": "1"}]],
+    [[{"t": "abfcv", "k": "lowerBoundary", "v": "0"}, {"t": "abfcv", "k": "width", "v": "1e-9"}]],
+    [[{"t": "colvar", "k": "corrFuncLength", "v": "2000000000"}], [{"t": "harmonic", "k": "forceConstant", "v": "nan"}]],
+]
+
+
 def table():
     rows = []
     for t, txt in TEMPLATES.items():
@@ -519,7 +529,7 @@ def run(ctx):
     rng = random.Random(ctx.seed)
     rng.shuffle(extra)
     extra = extra[:(400 if quick else 6000)]
-    allc = cases + extra
+    allc = cases + extra + [c for c in REGRESSIONS if case_key(c) not in seen]
     # every template must be accepted as it stands, or the table crosses nothing
     d = vlib.Drv(cwd=ctx.workdir)
     try:
